@@ -5,6 +5,7 @@ import (
 	"fmt"
 	"io"
 	"slices"
+	"sync"
 
 	"reduction.dev/reduction/dkv/kv"
 	"reduction.dev/reduction/dkv/sst"
@@ -19,6 +20,7 @@ const checkpointsFileName = "checkpoints"
 type CheckpointList struct {
 	checkpoints               []*Checkpoint
 	checkpointsPendingRemoval []*Checkpoint // Track removed checkpoints so they can be destroyed on Save
+	saveMu                    sync.Mutex    // Serializes Save
 }
 
 func NewCheckpointList() *CheckpointList {
@@ -51,6 +53,11 @@ func (cl *CheckpointList) Add(ckptID uint64, ll *sst.LevelList, w *wal.Writer, l
 }
 
 func (cl *CheckpointList) Save(fs storage.FileSystem) (string, error) {
+	// Saves must not overlap: the file written last has to hold the latest
+	// list, otherwise a slower, earlier save erases a completed checkpoint.
+	cl.saveMu.Lock()
+	defer cl.saveMu.Unlock()
+
 	// Collect a list of checkpoint docs for serialization
 	checkpointDocs := make([]checkpointDocument, len(cl.checkpoints))
 	for i, ckpt := range cl.checkpoints {
